@@ -86,19 +86,27 @@ class Problem:
         return -fstar - gc
 
     def solve(self, iters=40000):
-        """-> dict(x, Fstar_hi, Fstar_lo, gap, certified)"""
+        """-> dict(x, w, hi, lo, gap, certified); a singular Hessian yields an uncertified result"""
+        try:
+            if np.linalg.cond(self.H) > 1e10:
+                raise np.linalg.LinAlgError("ill-conditioned Hessian")
+            return self._solve(iters)
+        except np.linalg.LinAlgError:
+            return {"x": np.zeros(self.n, self.A.dtype), "w": None, "hi": np.inf, "lo": -np.inf, "gap": np.inf, "certified": False}
+
+    def _solve(self, iters):
         n = self.n
         G = self.G
         if self.gkind in (None, "none"):
             x = np.linalg.solve(self.H, self.c)
             hi = self.F(x)
             lo = self.dual(np.zeros(G.shape[0], self.A.dtype))
-            return self._pack(x, hi, lo)
+            return self._pack(x, hi, lo, np.zeros(G.shape[0], self.A.dtype))
         if self.gkind == "l2":
             x = np.linalg.solve(self.H + self.gpar * G.conj().T @ G, self.c)
             hi = self.F(x)
             lo = self.dual(self.gpar * (G @ x))
-            return self._pack(x, hi, lo)
+            return self._pack(x, hi, lo, self.gpar * (G @ x))
         best = None
         for rho in (1.0, 0.1, 10.0):
             K = np.linalg.inv(self.H + rho * G.conj().T @ G)
@@ -123,14 +131,14 @@ class Problem:
                 if np.isfinite(hi):
                     x = xf
             lo = self.dual(rho * u)
-            res = self._pack(x, hi, lo)
+            res = self._pack(x, hi, lo, g_conj(self.gkind, self.gpar, rho * u)[1])
             if best is None or res["gap"] < best["gap"]:
                 best = res
             if best["certified"]:
                 break
         return best
 
-    def _pack(self, x, hi, lo):
+    def _pack(self, x, hi, lo, w=None):
         scale = max(abs(hi), abs(lo), 1e-12)
         gap = hi - lo
-        return {"x": x, "hi": hi, "lo": lo, "gap": gap, "certified": bool(np.isfinite(hi) and gap <= 1e-8 * scale + 1e-13 and gap >= -1e-8 * scale - 1e-13)}
+        return {"x": x, "w": w, "hi": hi, "lo": lo, "gap": gap, "certified": bool(np.isfinite(hi) and gap <= 1e-8 * scale + 1e-13 and gap >= -1e-8 * scale - 1e-13)}
